@@ -47,7 +47,7 @@ def _abs_det_predict(ex, obj, args, kwargs, node):
 
 
 def _fmt_summary(ex, func, args, kwargs, so, node):
-    ex.emit("format_call", node, owner=func.cls.name if func.cls else None, args=args, kwargs=kwargs)
+    ex.emit("format_call", node, owner=func.cls.name if func.cls else getattr(getattr(func, "owner_cls", None), "name", None), args=args, kwargs=kwargs)
     return OpaqueV("formatted", {"kind": "frame"})
 
 
@@ -169,6 +169,11 @@ def check_all(ctx, cls):
     rule_b = "C17.b FLAG-PREDICATE"
     lo, hi = sym("stat_lower"), sym("stat_upper")
     if not flagged or not unflag:
+        filtered = [e for q_ in good for e in pred_events(q_, "comprehension") if e.data.get("conds")]
+        if filtered:
+            # the decision is the filter of a comprehension over per-segment records: a spelling this rule does not read
+            ctx.undecided(rule_b, "branches", filtered[0].loc(), "the flagging decision is the filter of a comprehension (records produced elsewhere): not decided in this spelling")
+            return
         ctx.violation(rule_b, "branches", predm.loc(), "the flagging decision does not have both outcomes", found=f"{len(flagged)} flagging / {len(unflag)} non-flagging paths")
         return
     q = flagged[0]
